@@ -5,6 +5,11 @@ Import ListNotations.
 Local Open Scope Z_scope.
 
 (* the source still has exactly the call-site skeletons the model was written from *)
+(* every loop over a block of neighbours iterates it where it was queried (unconditionally, for
+   the loop's own subject): the static half of "the block used for atom a was queried for a" *)
+Theorem blocks_used_where_queried : forallb (fun r => snd r) query_use = true.
+Proof. vm_compute. reflexivity. Qed.
+
 Theorem sites_table_matches_model : table_eqb sites modelled_sites = true.
 Proof. vm_compute. reflexivity. Qed.
 
@@ -23,7 +28,7 @@ Section P.
     (forall a, pr a = true -> cell_of c a <> None \/ x = Some a) /\
     (forall h, x = Some h -> cell_of c h = None /\ pr h = true).
 
-  Definition qok (q : qentry) : Prop := consistent (q_cs q) (q_present q) None.
+  Definition qok (q : qentry) : Prop := consistent (q_cs q) (q_present q) None /\ q_used q = q_atom q.
 
   Definition alloc (u : ustate) : Prop :=
     forall a, (next u <= a)%nat -> present u a = false /\ bonds u a = [].
@@ -261,7 +266,7 @@ Section P.
   Lemma P_query a u : Good u -> Good (u_query a u).
   Proof.
     intros [A G]. split; [exact A|]. destruct G as [C Q].
-    split; [exact C|]. cbn [qlog u_query]. constructor; [exact C | exact Q].
+    split; [exact C|]. unfold u_query, u_use. cbn [qlog]. constructor; [split; [exact C | reflexivity] | exact Q].
   Qed.
 
   Lemma P_link x a b u : GoodX x u -> GoodX x (u_link a b u).
@@ -571,7 +576,7 @@ Section P.
       intros i u' (G' & Hp' & E).
       pose proof (P_remove h u' G' Hp') as G1.
       destruct (P_rotate_some pv h atom (f i) (u_remove h u')) as [G2 E2]; [cbn [bonds u_remove]; rewrite E; exact B | exact G1 |].
-      split; [apply P_query, P_add; exact G2|]. cbn [present bonds u_query u_add].
+      split; [apply P_query, P_add; exact G2|]. unfold u_query, u_use. cbn [present bonds u_add].
       rewrite rotate_writes.
       destruct (frame_writes (moved (u_remove h u') pv atom) (f i) (moved (u_remove h u') pv atom) (u_remove h u') (fun m H => H)) as (F1 & F2 & _).
       rewrite F1, F2. cbn [present bonds u_remove]. auto. }
@@ -767,21 +772,51 @@ Section P.
   Theorem histories_of_protocols atoms u0 cl :
     NoDup atoms -> (forall a, In a atoms <-> present u0 a = true) -> alloc u0 ->
     let u := run_calls size D cl (assign_cells size D atoms u0) in
-    (forall q, In q (qlog u) -> q_present q (q_atom q) = true ->
+    (forall q, In q (qlog u) -> q_used q = q_atom q) /\
+    (forall q, In q (qlog u) -> q_present q (q_used q) = true ->
        forall b c0, 0 <= c0 <= D * size ->
-       (In b (filter (within c0 (q_cs q) (q_atom q)) (get_near_cells size (q_cs q) (q_atom q))) <->
-        q_present q b = true /\ b <> q_atom q /\ within c0 (q_cs q) (q_atom q) b = true)) /\
+       (In b (filter (within c0 (q_cs q) (q_used q)) (get_near_cells size (q_cs q) (q_atom q))) <->
+        q_present q b = true /\ b <> q_used q /\ within c0 (q_cs q) (q_used q) b = true)) /\
     (forall a, present u a = true -> forall b c0, 0 <= c0 <= D * size ->
        (In b (filter (within c0 (cs u) a) (get_near_cells size (cs u) a)) <->
         present u b = true /\ b <> a /\ within c0 (cs u) a b = true)).
   Proof.
     intros N H A u.
     destruct (run_calls_good cl _ (P_assign atoms u0 N H A)) as [_ G]. fold u in G.
-    destruct G as [C Q]. split.
-    - intros q Hq Ha b c0 Hc. rewrite Forall_forall in Q. apply consistent_query_exact; auto. apply (Q q Hq).
+    destruct G as [C Q]. rewrite Forall_forall in Q. split; [|split].
+    - intros q Hq. apply (Q q Hq).
+    - intros q Hq Ha b c0 Hc. destruct (Q q Hq) as [Cq E]. rewrite E in *.
+      apply consistent_query_exact; auto.
     - intros a Ha b c0 Hc. apply consistent_query_exact; auto.
   Qed.
 End P.
+
+(* ---- why the block must be the one queried for the atom it is used for ----------------------- *)
+
+(* atoms 0 and 1 of one group lie in different cells (x = 4.5 and x = 5.5, size 5, D = 10);
+   atom 2 at x = 10.4 is 4.9 from atom 1 and 5.9 from atom 0.  The block
+   queried for atom 0 and reused for atom 1 does not contain atom 2 (it lies two cells from
+   atom 0), although atom 2 is within range of atom 1; the block queried for atom 1 has it. *)
+Definition reuse_u : ustate :=
+  assign_cells 5 10 [0%nat; 1%nat; 2%nat]
+    (mkU (mk (fun _ => []) (fun _ => None)
+             (fun a => match a with 0%nat => (45, 0, 0) | 1%nat => (55, 0, 0) | _ => (104, 0, 0) end))
+         (fun a => Nat.ltb a 3) (fun _ => []) 3 []).
+
+Theorem block_reuse_misses :
+  Good 5 10 reuse_u /\
+  let q := mkQ 0%nat 1%nat (cs reuse_u) (present reuse_u) in
+  q_present q 2%nat = true /\ within 50 (q_cs q) (q_used q) 2%nat = true /\
+  ~ In 2%nat (get_near_cells 5 (q_cs q) (q_atom q)) /\
+  In 2%nat (get_near_cells 5 (q_cs q) (q_used q)).
+Proof.
+  split.
+  - apply P_assign; try lia.
+    + repeat constructor; cbn; intuition lia.
+    + intros a. cbn [present In]. destruct a as [|[|[|a]]]; cbn; intuition (try lia; try discriminate).
+    + intros a Ha. cbn [next present bonds] in *. split; [apply Nat.ltb_ge; exact Ha | reflexivity].
+  - vm_compute. repeat split; try reflexivity; intuition discriminate.
+Qed.
 
 (* ---- C14-F6 regression: a registered atom on a cell boundary ---------------------------- *)
 
